@@ -99,7 +99,7 @@ brk("C19", "ProgressBar.exit cancels outside the lock", "P3", _sub(
 brk("C19", "ProgressBar.exit forgets to set the stop flag", "P3", _sub(
     UT, '            self._stopped = True\n            if self._timer is not None:', '            if self._timer is not None:'))
 brk("C19", "extra daemon thread started in a backend", "P2", _sub(
-    TEBDB, 'import concurrent\n', 'import concurrent\nimport threading\n_T = threading.Thread(target=lambda: None)\n'))
+    TEBDB, 'import concurrent.futures\n', 'import concurrent.futures\nimport threading\n_T = threading.Thread(target=lambda: None)\n'))
 brk("C19", "executor not context managed", "P2", _sub(
     TEBDB, '                with concurrent.futures.ThreadPoolExecutor() as executor:\n                    output_datas = executor.map(apply_nn_gate, input_datas)',
     '                executor = concurrent.futures.ThreadPoolExecutor()\n                if True:\n                    output_datas = executor.map(apply_nn_gate, input_datas)'))
@@ -761,3 +761,57 @@ brk("C02", "Tempo hands dkmax over as epsrel slot", "S3", _sub(
     TE, '                sum_west,\n                dkmax,\n                epsrel,\n                config=self._backend_config,\n                degeneracy_maps=degeneracy_maps,\n                dim=dim)', '                sum_west,\n                epsrel,\n                dkmax,\n                config=self._backend_config,\n                degeneracy_maps=degeneracy_maps,\n                dim=dim)'))
 brk("C02", "PT-TEMPO memory from a constant", "S4", _sub(
     PTT, '        dkmax = self._parameters.dkmax\n        if dkmax is None:\n            dkmax = self._num_steps', '        dkmax = self._parameters.dkmax\n        if dkmax is None:\n            dkmax = 100'))
+
+# ------------------------------------------------------------------ later additions
+brk("C19", "update arms a second timer without cancelling the first", "P3", _sub(
+    UT, '            self._timer.cancel()\n            self._timer = Timer(1.0, self.update)', '            self._timer = Timer(1.0, self.update)'))
+brk("C17", "export closes the file in a finally clause", "W7", _multi(
+    _sub(PT, '        pt_file.set_initial_tensor(self._initial_tensor)\n        for step, mpo in enumerate(self._mpo_tensors):\n            pt_file.set_mpo_tensor(step, mpo)\n        for step, cap in enumerate(self._cap_tensors):\n            pt_file.set_cap_tensor(step, cap)\n        pt_file.close()',
+         '        try:\n            pt_file.set_initial_tensor(self._initial_tensor)\n            for step, mpo in enumerate(self._mpo_tensors):\n                pt_file.set_mpo_tensor(step, mpo)\n            for step, cap in enumerate(self._cap_tensors):\n                pt_file.set_cap_tensor(step, cap)\n        finally:\n            pt_file.close()')))
+brk("C17", "FileProcessTensor grows a __del__ that closes", "W7", _sub(
+    PT, '    def remove(self):\n        """Delete the HDF5 file. """', '    def __del__(self):\n        self.close()\n\n    def remove(self):\n        """Delete the HDF5 file. """'))
+brk("C14", "Tempo.compute re-initialises for an earlier end time", "T5", _sub(
+    TE, '        start_step = self._backend_instance.step\n        num_step = self._get_num_step(start_step, tmp_end_time)\n\n        progress = get_progress(progress_type)\n        title = "--> TEMPO computation:"',
+    '        if tmp_end_time < self._time(self._backend_instance.step):\n            self._backend_instance.initialize()\n        start_step = self._backend_instance.step\n        num_step = self._get_num_step(start_step, tmp_end_time)\n\n        progress = get_progress(progress_type)\n        title = "--> TEMPO computation:"'))
+brk("C14", "MeanFieldTempo.compute creates a fresh dynamics object on every call", "T5", _sub(
+    TE, '            step, system_states, field = self._backend_instance.initialize()\n            self._init_dynamics()\n', '            step, system_states, field = self._backend_instance.initialize()\n        self._init_dynamics()\n        if True:\n'))
+brk("C18", "compute_dynamics leaves the loop before the last pre-control", "O2", _multi(
+    _sub(SD, '''            pre_measurement_control, post_measurement_control = controls(step)
+
+            if pre_measurement_control is not None:
+                current_node, current_edges = _apply_system_superoperator(
+                    current_node, current_edges, pre_measurement_control)
+
+            if step == num_steps:
+                break
+
+            # -- extract current state -- update field --
+            if record_all:
+                caps = _get_caps(process_tensors, step)
+                state_tensor''', '''            if step == num_steps:
+                break
+
+            pre_measurement_control, post_measurement_control = controls(step)
+
+            if pre_measurement_control is not None:
+                current_node, current_edges = _apply_system_superoperator(
+                    current_node, current_edges, pre_measurement_control)
+
+            # -- extract current state -- update field --
+            if record_all:
+                caps = _get_caps(process_tensors, step)
+                state_tensor''')))
+brk("C18", "Control.add_single stores post controls under 'pre'", "O3", _sub(
+    CT, "        if post:\n            pre_post = 'post'\n        else:\n            pre_post = 'pre'", "        if post:\n            pre_post = 'pre'\n        else:\n            pre_post = 'post'"))
+brk("C18", "get_controls returns (post, pre)", "O3", _sub(CT, '        return pre_control, post_control', '        return post_control, pre_control'))
+brk("C18", "ChainControl.get_single_site_controls picks the post list for pre", "O3", _sub(
+    CT, '        if not post:\n            ss_controls = self._single_site_controls_pre\n        else:\n            ss_controls = self._single_site_controls_post', '        if post:\n            ss_controls = self._single_site_controls_pre\n        else:\n            ss_controls = self._single_site_controls_post'))
+brk("C15", "PtTempo step count ignores the start time", "U1", _sub(
+    PTT, '            (end_time - self._start_time)/self._parameters.dt, decimals=9))', '            end_time/self._parameters.dt, decimals=9))'))
+brk("C16", "tensor data stored in single precision", "X7", _sub(
+    PT, "data_type = h5py.vlen_dtype(np.dtype('complex128'))", "data_type = h5py.vlen_dtype(np.dtype('complex64'))"))
+brk("C16", "reader narrows the tensor", "X7", _sub(
+    PT, '    tensor = tensor.reshape(tensor_shape)\n    if _is_hdf5_none(tensor):', '    tensor = tensor.reshape(tensor_shape).astype(np.complex64)\n    if _is_hdf5_none(tensor):'))
+brk("C20", "functools.cache on a method reading public state", "A1", _multi(
+    _sub(BC, 'from functools import lru_cache\n', 'from functools import lru_cache, cache\n'),
+    _sub(BC, '    def spectral_density(self, omega: ArrayLike) -> ArrayLike:', '    @cache\n    def spectral_density(self, omega: ArrayLike) -> ArrayLike:')))
